@@ -1,10 +1,13 @@
 #!/bin/bash
-# usage: tryseed.sh <patch.diff> <prop> [more props]  — apply a seeded change to /repo, run checks, undo
+# usage: tryseed.sh <patch.diff> <prop> [more props]  — apply a seeded change to /repo, run checks (without touching
+# evidence/out), undo
 patch=$1; shift
+. /verif/scripts/env.sh
 cd /repo || exit 2
 git apply "$patch" || { echo "patch does not apply"; exit 2; }
 for p in "$@"; do
-  /verif/scripts/check.sh $p quick 2>&1 | grep -v "^KNOWN\|^      " | cut -c1-400
+  /verif/bin/drandcheck check -prop $p -tier quick -repo /repo -verif /verif -no-evidence 2>&1 | grep -v "^      " | cut -c1-400
+  echo "[$p exit=${PIPESTATUS[0]}]"
 done
-git checkout -- . 
+git checkout -- .
 git status --short | grep -v "test/regression" | head -3
